@@ -73,7 +73,8 @@ def expectedObjectsOrder : List String :=
    "drop-destructed-accepted", "build-array"]
 
 theorem objects_order_tie : NV.Gen.C08.objectsOrder = expectedObjectsOrder ∧
-    NV.Gen.C08.objectsFilterSkipCond = "ob->flags & O_DESTRUCTED" := by decide
+    NV.Gen.C08.objectsFilterSkipCond = "ob->flags & O_DESTRUCTED" ∧
+    NV.Gen.C08.objectsCalleeTested = NV.Gen.C08.objectsCallee := by decide
 
 /-- the two comparison operators of set_heart_beat(ob, 0) that `hbRemove` applies (`cmpOp` evaluates whatever operator
     the source has; this obligation records the ones the property was checked against) -/
